@@ -1,6 +1,7 @@
 package checks
 
 import (
+	"context"
 	"encoding/hex"
 	"fmt"
 	"math/rand"
@@ -46,6 +47,9 @@ func c06Gen(tier string, seed int64) []fw.Case {
 	}
 	for i := 0; i < 4; i++ {
 		cs = append(cs, fw.Mk(fmt.Sprintf("parsers-%d", i), c06Params{Mode: "parsers", N: nrand * 50}))
+	}
+	for i := 0; i < 8; i++ {
+		cs = append(cs, fw.Mk(fmt.Sprintf("preconnack-%d/8", i), c06Params{Mode: "preconnack", Part: i, Of: 8, N: nrand / 4}))
 	}
 	return cs
 }
@@ -334,6 +338,59 @@ func c06RunStream(s c06Stream) (sig, detail string, trace []string, obs string) 
 	return "", "", nil, obs
 }
 
+// c06PreConnack: the peer answers CONNECT with hostile bytes, then closes. Connect must return (never
+// crash, never over-allocate); if it returned nil the blob must have begun with an accepting CONNACK.
+func c06PreConnack(s c06Stream) (sig, detail string, trace []string) {
+	blob, _ := hex.DecodeString(s.Blob)
+	tr := memnet.NewTrace()
+	peer := &scen.Script{Tr: tr}
+	peer.OnPkt = func(cn *memnet.Conn, p *mqttref.Packet, raw []byte) bool {
+		if p != nil && p.Type == mqttref.CONNECT {
+			cn.SendLocked(blob, "hostile-instead-of-connack:"+s.Class)
+			cn.PeerCloseLocked("peer closes after the hostile bytes")
+		}
+		return false
+	}
+	cli, conn := scen.NewBase(tr, peer)
+	conn.Chunk = s.Chunk
+	conn.LateWriteOK = true
+	ctx, cancel := context.WithTimeout(context.Background(), scen.Watchdog)
+	defer cancel()
+	_, err := cli.Connect(ctx, "verif")
+	defer cli.Close()
+	fail := func(sg, f string, a ...interface{}) (string, string, []string) {
+		return sg, fmt.Sprintf(f, a...) + fmt.Sprintf("\nblob=%s class=%s chunk=%d", s.Blob, s.Class, s.Chunk), tr.Dump(30)
+	}
+	if scen.IsDeadline(err) {
+		if scen.CertifyStuck(tr, conn) {
+			return fail("connect-blocked-on-hostile-bytes", "Connect did not return although the peer closed after its (hostile) answer")
+		}
+		return "inconclusive", "Connect watchdog", nil
+	}
+	tr.Mu.Lock()
+	online := append([]string{}, tr.Online...)
+	maxRead := conn.MaxReadLen
+	tr.Mu.Unlock()
+	if len(online) > 0 {
+		return fail("oversized-allocation", "%s", online[0])
+	}
+	if maxRead > mqttref.MaxRemaining {
+		return fail("oversized-allocation", "Read with a %d-byte buffer", maxRead)
+	}
+	if err == nil {
+		// accepted: the first packet must have been a well-formed accepting CONNACK
+		n, ferr := mqttref.Frame(blob)
+		ok := false
+		if ferr == nil && n >= 4 && blob[0]>>4 == mqttref.CONNACK && blob[n-1] == 0 {
+			ok = true // a CONNACK with return code 0 (leniencies such as reserved acknowledge flags are not the property's business)
+		}
+		if !ok {
+			return fail("connect-accepted-hostile-bytes", "Connect returned nil although the peer never sent a CONNACK with return code 0")
+		}
+	}
+	return "", "", nil
+}
+
 func c06Run(c fw.Case, env *fw.Env) fw.Result {
 	var p c06Params
 	fw.Params(c, &p)
@@ -388,6 +445,42 @@ func c06Run(c fw.Case, env *fw.Env) fw.Result {
 			if r.Sample == nil {
 				r.Sample = s
 			}
+		}
+	case "preconnack":
+		// hostile bytes instead of (or in front of) the CONNACK, while Connect is waiting
+		rng := env.Rng(c)
+		streams := structuralStreams()
+		var list []c06Stream
+		for i, s := range streams {
+			if i%p.Of == p.Part && !s.Truncate {
+				list = append(list, s)
+			}
+		}
+		for i := 0; i < p.N; i++ {
+			list = append(list, randomStream(rng))
+		}
+		for _, s := range list {
+			fmt.Printf("## preconnack class=%s blob=%s\n", s.Class, clip(s.Blob, 200))
+			sig, det, trc := c06PreConnack(s)
+			r.Evals++
+			if sig == "inconclusive" {
+				r.Verdict = fw.Inconclusive
+				r.Detail = det
+				return r
+			}
+			if sig != "" {
+				r.Verdict = fw.Violated
+				r.Sig = sig + ":" + sigClass(s.Class)
+				r.Detail = det
+				r.Trace = trc
+				r.Sample = s
+				return r
+			}
+			r.NT = append(r.NT, fw.Hash("pre", s.Blob, s.Chunk))
+			r.Counters["preconnack_streams"]++
+		}
+		if len(list) > 0 {
+			r.Sample = map[string]interface{}{"mode": "preconnack", "example_blob": list[0].Blob, "class": list[0].Class}
 		}
 	case "parsers":
 		rng := env.Rng(c)
@@ -531,7 +624,7 @@ func init() {
 		ID:    "C06",
 		Level: "exploration",
 		Rule: "structural generator: every packet type x flag nibble x body length 0-5, length fields of 1-12 bytes (non-minimal, over-long, endless 0xFF/0x80 runs), truncation of well-formed packets at byte offsets followed by peer close, PUBLISH with string length beyond the body / QoS 3 / missing id / U+0000, short SUBACK/CONNACK/acks; " +
-			"seeded random and mutated streams; random bodies handed directly to every packet parser. Each hostile blob follows 0-3 well-formed PUBLISHes and is followed by a canary PUBLISH, with read chunking 1/2/7/whole. " +
+			"seeded random and mutated streams; random bodies handed directly to every packet parser; the same blobs sent instead of the CONNACK while Connect is waiting (Connect must return, nil only for a CONNACK with return code 0). Each hostile blob follows 0-3 well-formed PUBLISHes and is followed by a canary PUBLISH, with read chunking 1/2/7/whole. " +
 			"Oracle: worker process survives (journal attribution otherwise); every Read buffer <= 268435455; for blobs an independent strict decoder puts in the property's list the library must Close the transport before parking on the exhausted input, the canary must not be handed over, " +
 			"over-long length fields consume at most 4 length bytes, Done() closes, Err() and the Closed callback carry the same non-nil error; the prefix is handed over / acknowledged. Non-trivial: distinct (blob,prefix,chunk) streams.",
 		Assumptions: []string{"leniencies the property's list does not mention (non-minimal length encoding, DUP on QoS 0, over-long ack bodies, invalid UTF-8 other than U+0000, client-only packet types) are only required not to crash or over-allocate",
